@@ -796,6 +796,7 @@ func c26partB(r *engine.Run) *c26wide {
 }
 
 func c26(r *engine.Run) {
+	r.RaceWorkload = "peers:pex" // supplement: free-running race-detector pass on one shared object (can only add findings)
 	depth := r.Pick(4, 6)
 	budget := r.Pick(70, 16*60)
 	var cfgs []c26cfg
